@@ -129,4 +129,102 @@ theorem skel_Manager_Load_ok : skel_Manager_Load = ([
   "return m.Store.Load(req.Context(), key)",
   "m.Store.Load"] : List String) := rfl
 
+theorem skel_storedSessionLoader_refreshSessionIfNeeded_ok : skel_storedSessionLoader_refreshSessionIfNeeded = ([
+  "if !needsRefresh(s.refreshPeriod, session)",
+  "needsRefresh",
+  "return nil",
+  "defer",
+  "for !lockObtained",
+  "return errors.New(\"timeout obtaining session lock\")",
+  "session.ObtainLock",
+  "if err != nil && !errors.Is(err, sessionsapi.ErrLockNotObtained)",
+  "return fmt.Errorf(\"error occurred while trying to obtain lock: %v\",",
+  "if errors.Is(err, sessionsapi.ErrLockNotObtained)",
+  "defer",
+  "func{",
+  "if session == nil",
+  "return",
+  "if err != nil",
+  "session.ReleaseLock",
+  "s.store.Load",
+  "if err != nil",
+  "return fmt.Errorf(\"could not load session: %v\", err)",
+  "if freshSession == nil",
+  "return errors.New(\"session no longer exists, it may have been remov",
+  "if !needsRefresh(s.refreshPeriod, session)",
+  "needsRefresh",
+  "return nil",
+  "if err != nil",
+  "s.refreshSession",
+  "return s.validateSession(req.Context(), session)",
+  "s.validateSession"] : List String) := rfl
+
+theorem skel_OAuthProxy_OAuthCallback_ok : skel_OAuthProxy_OAuthCallback = ([
+  "if err != nil",
+  "p.ErrorPage",
+  "return",
+  "req.Form.Get",
+  "if errorString != \"\"",
+  "p.ErrorPage",
+  "return",
+  "decodeState",
+  "req.Form.Get",
+  "if err != nil",
+  "p.ErrorPage",
+  "return",
+  "cookies.GenerateCookieName",
+  "cookies.LoadCSRFCookie",
+  "if err != nil",
+  "p.ErrorPage",
+  "return",
+  "p.redeemCode",
+  "csrf.GetCodeVerifier",
+  "if err != nil",
+  "p.ErrorPage",
+  "return",
+  "p.enrichSessionState",
+  "if err != nil",
+  "p.ErrorPage",
+  "return",
+  "csrf.ClearCookie",
+  "if !csrf.CheckOAuthState(nonce)",
+  "csrf.CheckOAuthState",
+  "p.ErrorPage",
+  "return",
+  "csrf.SetSessionNonce",
+  "if !p.provider.ValidateSession(req.Context(), session)",
+  "p.provider.ValidateSession",
+  "p.ErrorPage",
+  "return",
+  "if !p.redirectValidator.IsValidRedirect(appRedirect)",
+  "p.redirectValidator.IsValidRedirect",
+  "p.provider.Authorize",
+  "if err != nil",
+  "if p.Validator(session.Email) && authorized",
+  "p.Validator",
+  "p.SaveSession",
+  "if err != nil",
+  "p.ErrorPage",
+  "return",
+  "http.Redirect",
+  "p.ErrorPage"] : List String) := rfl
+
+theorem skel_GetRequestPath_ok : skel_GetRequestPath = ([
+  "if err == nil",
+  "url.ParseRequestURI",
+  "return parsedURL.Path",
+  "if idx != -1",
+  "strings.Index",
+  "return uri[:idx]",
+  "return uri"] : List String) := rfl
+
+theorem skel_isAllowedPath_ok : skel_isAllowedPath = ([
+  "route.pathRegex.MatchString",
+  "if route.negate",
+  "return !matches",
+  "return matches"] : List String) := rfl
+
+theorem skel_isAllowedMethod_ok : skel_isAllowedMethod = ([
+  "return route.method == \"\" || req.Method == route.method"] : List String) := rfl
+
 end O2P.Expect.C01
